@@ -12,6 +12,7 @@ inductive Fn where
   | powc (p : Int) (c : Rat)        -- x^p - c
   | sat (s c : Rat)                 -- (x-s)/(1+|x-s|) - c
   | plat (k : Nat) (d : Rat)        -- 1/(1+x^2)^k - d
+  | scale (c : Rat) (g : Fn)        -- c * g(x)
   | at (t : Rat) (v : Option Rat) (g : Fn)   -- the value v (none = NaN) at x = t, g elsewhere
   | nanle (t : Rat) (g : Fn)        -- NaN for x <= t
   | nange (t : Rat) (g : Fn)        -- NaN for x >= t
@@ -22,6 +23,7 @@ def Fn.eval : Fn → Rat → Option Rat
   | .powc p c, x => if x = 0 ∧ p < 0 then none else some (x ^ p - c)
   | .sat s c, x => some ((x - s) / (1 + rabs (x - s)) - c)
   | .plat k d, x => some ((1 / (1 + x * x)) ^ k - d)
+  | .scale c g, x => (g.eval x).map (c * ·)
   | .at t v g, x => if x = t then v else g.eval x
   | .nanle t g, x => if x ≤ t then none else g.eval x
   | .nange t g, x => if x ≥ t then none else g.eval x
@@ -35,6 +37,8 @@ def Fn.mag : Fn → Rat → Rat
   | .powc p c, x => rabs (x ^ p) * (1 + rabs (p : Rat)) + rabs c
   | .sat s c, x => (rabs x + rabs s) / (1 + rabs (x - s)) + rabs c
   | .plat k d, x => (1 / (1 + x * x)) ^ k * (2 + (k : Rat)) + rabs d
+  -- a product that lands in the subnormal range carries an absolute error of 2^-1075 = 2^-53 * 2^-1022
+  | .scale c g, x => rabs c * g.mag x + pow2 (-1022)
   | .at t v g, x => if x = t then rabs (v.getD 0) else g.mag x
   | .nanle _ g, x => g.mag x
   | .nange _ g, x => g.mag x
@@ -46,6 +50,7 @@ partial def pFn : P Fn := do
   else if k = "powc" then do let p ← pInt; let c ← pRat; pure (.powc p c)
   else if k = "plat" then do let p ← pNat; let c ← pRat; pure (.plat p c)
   else if k = "sat" then do let s ← pRat; let c ← pRat; pure (.sat s c)
+  else if k = "scale" then do let c ← pRat; let g ← pFn; pure (.scale c g)
   else if k = "at" then do
     let t ← pRat
     let vt ← tok
